@@ -88,6 +88,19 @@ func TestRegression(t *testing.T) {
 		}
 		ev.Case(false, 0, nil)
 	}
+	// defect 11 (fixed in 8fb23d7): a rejected registration left trie nodes behind that shadowed registered routes
+	tb = mk("HEAD /:x/", "GET /a/*", "GET /u/:id")
+	for _, a := range [][2]string{{"GET", "/favicon.ico/:x/:x/"}, {"GET", "/a/:x/:x"}, {"GET", "/a/b/:"}, {"GET", "/u/:name"}, {"GET", "/u/:id"}, {"FOO", "/q"}} {
+		if !tb.AttemptRejected(a[1], a[0]) {
+			t.Errorf("registration %s %q is expected to be rejected", a[0], a[1])
+		}
+	}
+	for _, rq := range [][2]string{{"HEAD", "//favicon.ico"}, {"HEAD", "/favicon.ico"}, {"GET", "/a/foo"}, {"GET", "/a/b"}, {"GET", "/a/b/c"}, {"GET", "/u/42"}, {"GET", "/q"}} {
+		if msg, _ := checkRequest(tb, rq[0], rq[1]); msg != "" {
+			t.Errorf("after rejected registrations, table %s request %s %q: %s", rh.RenderTable(tb.Routes), rq[0], rq[1], msg)
+		}
+		ev.Case(false, 0, nil)
+	}
 }
 
 // ---- exhaustive small scope ----
@@ -232,12 +245,35 @@ func genPattern() *rapid.Generator[string] {
 }
 
 // genTable draws 1..8 routes and keeps those the real Mux accepts.
+// attempt is a registration the Mux rejects; when onMux is set it is also performed (and recovered from) on the Mux
+// under test, after the first `after` accepted routes.
+type attempt struct {
+	pattern, method string
+	after           int
+}
+
 func genTable(t *rapid.T) (accepted []rm.Route, rejected int, ok bool) {
+	accepted, _, rejected, ok = genTableWithAttempts(t)
+	return
+}
+
+func genTableWithAttempts(t *rapid.T) (accepted []rm.Route, attempts []attempt, rejected int, ok bool) {
 	n := rapid.IntRange(1, 8).Draw(t, "nroutes")
 	for i := 0; i < n; i++ {
 		p := genPattern().Draw(t, "pattern")
 		m := rapid.SampledFrom(methodPool).Draw(t, "method")
-		if rapid.IntRange(0, 30).Draw(t, "badmethod") == 0 {
+		if len(accepted) > 0 && rapid.IntRange(0, 5).Draw(t, "variantOfEarlier") == 0 {
+			// a second registration for the trie position of an earlier route: same shape and method, other
+			// parameter names (a duplicate the Mux must reject without touching the route that owns the position)
+			a := accepted[rapid.IntRange(0, len(accepted)-1).Draw(t, "earlier")]
+			frags := strings.Split(a.Pattern, "/")
+			for j, f := range frags {
+				if len(f) > 1 && f[0] == ':' {
+					frags[j] = rapid.SampledFrom([]string{":x", ":y", ":id", ":n", ":zz-unused"}).Draw(t, "rename")
+				}
+			}
+			p, m = strings.Join(frags, "/"), a.Method
+		} else if rapid.IntRange(0, 30).Draw(t, "badmethod") == 0 {
 			m = rapid.SampledFrom([]string{"", "get", "FOO", "**"}).Draw(t, "bad")
 		}
 		r, valid := rm.NewRoute(p, m)
@@ -251,16 +287,41 @@ func genTable(t *rapid.T) (accepted []rm.Route, rejected int, ok bool) {
 			ev.Label("gen:model_and_mux_disagree_on_route_validity")
 			if real {
 				// the Mux accepted what the model calls a duplicate/invalid route: dispatch for this table is undefined
-				return nil, 0, false
+				return nil, nil, 0, false
 			}
 		}
 		if real {
 			accepted = append(accepted, r)
 		} else {
 			rejected++
+			if KnownMethodForAttempt(m) {
+				attempts = append(attempts, attempt{p, m, len(accepted)})
+			}
 		}
 	}
-	return accepted, rejected, len(accepted) > 0
+	return accepted, attempts, rejected, len(accepted) > 0
+}
+
+// KnownMethodForAttempt: an unknown method is rejected before the trie is touched; only the other rejections
+// (duplicate route, empty or duplicate parameter name) are interesting as attempts on the Mux under test.
+func KnownMethodForAttempt(m string) bool { return rm.KnownMethod(m) }
+
+// buildTable registers the accepted routes and, in between, performs the rejected registrations on the same Mux.
+func buildTable(routes []rm.Route, attempts []attempt) (*rh.Table, string) {
+	tb := rh.NewTable(nil)
+	ai := 0
+	for i := 0; i <= len(routes); i++ {
+		for ai < len(attempts) && attempts[ai].after == i {
+			if !tb.AttemptRejected(attempts[ai].pattern, attempts[ai].method) {
+				return nil, fmt.Sprintf("registration %s %q was rejected on a fresh Mux but accepted on the Mux under test", attempts[ai].method, attempts[ai].pattern)
+			}
+			ai++
+		}
+		if i < len(routes) {
+			tb.Add(routes[i])
+		}
+	}
+	return tb, ""
 }
 
 func genRequestPath(routes []rm.Route) *rapid.Generator[string] {
@@ -319,7 +380,7 @@ var reqMethods = append(append([]string{}, rm.Methods...), "GET", "GET", "POST",
 
 func TestGenerated(t *testing.T) {
 	rt.Check(t, 4000, 1500000, func(t *rapid.T) {
-		routes, rejected, ok := genTable(t)
+		routes, attempts, rejected, ok := genTableWithAttempts(t)
 		if !ok {
 			ev.Inconclusive(1)
 			return
@@ -327,6 +388,17 @@ func TestGenerated(t *testing.T) {
 		tb := rh.NewTable(routes)
 		if rejected > 0 {
 			ev.Label("gen:table_had_rejected_registrations")
+		}
+		if len(attempts) > 0 && rapid.Bool().Draw(t, "attemptsOnMuxUnderTest") {
+			// the program tried the rejected registrations on this very Mux and recovered: the successfully registered
+			// routes must be served as if that had never happened
+			var why string
+			if tb, why = buildTable(routes, attempts); tb == nil {
+				ev.Inconclusive(1)
+				_ = why
+				return
+			}
+			ev.Label("gen:rejected_registrations_attempted_on_mux_under_test")
 		}
 		nreq := rapid.IntRange(1, 10).Draw(t, "nreq")
 		for i := 0; i < nreq; i++ {
